@@ -374,6 +374,45 @@ func runNoIn(r *engine.Run) {
 	r.Note(fmt.Sprintf("shard %d: %d valid texts compared, %d invalid skipped", r.Shard, valid, invalid))
 }
 
+// refOracle runs texts whose validity the reference decides: valid ones are
+// compared with the reference tree, invalid ones are C04's reject direction.
+func refOracle(r *engine.Run, gen func(f func(key, src string))) {
+	h := &harness{r: r}
+	valid, invalid := 0, 0
+	gen(func(key, src string) {
+		if !r.MineKey(key) {
+			return
+		}
+		ref := syntax.Parse(src, syntax.Options{})
+		if !ref.Accepted() {
+			invalid++
+			r.Skip()
+			return
+		}
+		if callTarget(ref.Tree) {
+			r.Skip()
+			return
+		}
+		valid++
+		h.compare(key, src, ref.Tree.Dump())
+	})
+	r.Note(fmt.Sprintf("shard %d: %d valid texts compared, %d invalid skipped", r.Shard, valid, invalid))
+}
+
+// runSpellings: contextual words (get/set, labels, dotted names, regexp flags)
+// in every spelling that cooks to the same value.
+func runSpellings(r *engine.Run) { refOracle(r, SpellingTexts) }
+
+// runComments: comment contents, including source-map directives, never change the tree.
+func runComments(r *engine.Run) {
+	max := 4
+	if r.Thorough() {
+		max = 5
+	}
+	refOracle(r, func(f func(key, src string)) { CommentTexts(max, f) })
+	r.Bound("pieces", fmt.Sprint(max))
+}
+
 // runRegexDiv: `/` after each token class: contexts in which a regular
 // expression literal is expected versus those in which `/` divides.
 func runRegexDiv(r *engine.Run) {
